@@ -2,19 +2,40 @@
   C01  A host expression targets exactly its mathematical expansion.
   PROPERTY THEOREMS ONLY (helper lemmas live in PdshVerif/Hostlist/Lemmas*.lean).
 
-  Model: PdshVerif/Hostlist/{Basic,Push,Parse,Iter,Cli}.lean (hostlist.c, opt.c wcoll_expand,
-  split.c).  Spec: PdshVerif/Hostlist/Spec.lean (`expand₁`, `expand₂`, written without the model).
+  Model: PdshVerif/Hostlist/{Basic,Push,Parse,Iter,Cli}.lean (hostlist.c, opt.c wcoll_expand and
+  wcoll_arg_process, split.c list_split).  Spec: PdshVerif/Hostlist/Spec.lean (`expand₁`,
+  `expand₂`, written without the model).
 
-  What is proved: the coalescing push, the width rewriting, the tokenizer on rendered text, the
-  per-word parser (together: `create_render`, string level) and the iterator of the model, for ALL
-  inputs in the stated domains.  What is not: the second-bracket re-expansion of `wcoll_expand`
-  (`expand₂`) is tied to the spec by the correspondence only (real pdsh binary vs model vs spec).
   The model is parametrised by `cfg : Cfg` (which recorded defects the source still carries; the
   driver uses the variant PROBED from /repo on every run).  Every theorem holds for ALL variants;
   a domain restriction that is a defect is an explicit hypothesis of the form
   "the repairing switch is on ∨ the input avoids the defect" (`wordDom cfg`, `PrintsFull cfg`),
-  so for the repaired variant the statement is the full one (`iter_all_repaired`,
+  so for the repaired variant (= /repo HEAD) the statement is the full one (`iter_all_repaired`,
   `create_render_repaired`), and for `Cfg.unchanged` a `decide`d witness shows it fails without it.
+
+  clause of the property text                       theorem(s)
+  ------------------------------------------------  ------------------------------------------------
+  prefix[a-b,c]suffix = prefix+n+suffix, order      create_words (token level), create_render (TEXT
+   written, width of the low bound as typed,         level: any separator runs; tokenizer proved),
+   repeats kept                                      create_render_repaired
+  foo1 / foo01 are different hosts                  padding_is_identity, widthEquiv_sound
+  plain names pass through unchanged (any name:     plain_name_unchanged
+   digit-ending prefixes, purely numeric, > 2^25)
+  a second bracket pair is expanded too             wcoll_expand₂, text_expand₂
+  "accepted by -w": the WHOLE -w argument           cli_first_split (split.c's comma split never
+   (list_split + wcoll_arg_process +                 changes the tokens — EVERY text),
+   hostlist_push per comma-word + wcoll_expand)      cli_first_level (= expand₁), cli_targets (= expand₂)
+  the hosts dsh() walks / wcoll_expand shifts out   iter_all(_repaired), shift_all
+  coalescing push keeps sequence and count          pushRange_hosts, nhosts_eq, pushList_hosts
+
+  NOT PROVED (correspondence + oracle only, checks/c01.py): the same expressions in `-x` and in
+  WCOLL / `^file` lines (the file reader and the exclusion path are C10's / C02's models; C01's
+  check runs pinned and generated cases of both contexts against `expand₂` on the real pdsh and
+  looks every name of an expansion up by name in the list the real `hostlist_create` built);
+  `cli_targets` and `text_expand₂` keep the hypothesis that every number fits the buffer
+  `hostrange_shift` allocates (`ShiftFits`: true of every record whose number has at most
+  width+15 digits; a chain of coalesced ranges over > 10^15 hosts would be needed to break it);
+  words with `:` / `@` / leading `-` `^` `/` are other options' syntax (C02, C09, C10).
 -/
 import PdshVerif.Hostlist.Lemmas
 import PdshVerif.Hostlist.LemmasParse
@@ -23,6 +44,7 @@ import PdshVerif.Hostlist.LemmasCreate
 import PdshVerif.Hostlist.LemmasTok
 import PdshVerif.Hostlist.LemmasShift
 import PdshVerif.Hostlist.LemmasExpand
+import PdshVerif.Hostlist.LemmasCli
 
 namespace PdshVerif.C01
 open PdshVerif.Hostlist PdshVerif.Gen
@@ -139,6 +161,39 @@ theorem text_expand₂ (cfg : Cfg) (lead : Str) (items : List (Spec.Word × Str)
     h hg (hf h hc) hh
   exact ⟨h, h', hc, h1, h2, h3⟩
 
+/-- THE COMMAND LINE'S FIRST SPLIT IS INVISIBLE — for EVERY text: split.c `list_split(",", arg)`
+    (the same `_next_tok`, separator ",") followed by `hostlist_create`'s tokenizer on every
+    comma-word finds exactly the tokens `hostlist_create` finds in the whole argument -/
+theorem cli_first_split (arg : Str) :
+    (tokens [','] arg).flatMap (tokens hlSep) = tokens hlSep arg :=
+  split_then_tokens arg
+
+/-- FIRST LEVEL OF `-w ARG`: on the TEXT of a well-formed expression, `list_split` +
+    `wcoll_arg_process` + `hostlist_push` of every comma-word build a working collective that
+    denotes `expand₁` (`cliWord`: the words are plain target words — no `:` `@`, not starting with
+    white space, `-`, `^`, `/`, which is other options' syntax) -/
+theorem cli_first_level (cfg : Cfg) (lead : Str) (items : List (Spec.Word × Str))
+    (hl : lead.all Spec.sepChar = true) (hok : Spec.sepsOK items = true)
+    (hw : ∀ p ∈ items, p.1.WF = true) (hd : ∀ p ∈ items, wordDom cfg p.1)
+    (hcl : ∀ p ∈ items, cliWord p.1) :
+    ∃ h, cliPushWords cfg HL.new (tokens [','] (Spec.render lead items)) = .ok (some h) ∧ h.Good ∧
+      h.hosts = Spec.expand₁ (items.map (·.1)) :=
+  cliPushWords_render cfg lead items hl hok hw hd hcl
+
+/-- THE WHOLE `-w ARG` PATH (first split ∘ per-word `hostlist_create` ∘ `wcoll_expand`): the
+    working collective pdsh ends up with for the text of a well-formed expression denotes exactly
+    its mathematical expansion `expand₂` -/
+theorem cli_targets (cfg : Cfg) (lead : Str) (items : List (Spec.Word × Str))
+    (hl : lead.all Spec.sepChar = true) (hok : Spec.sepsOK items = true)
+    (hw : ∀ p ∈ items, p.1.WF = true) (hd : ∀ p ∈ items, wordDom cfg p.1)
+    (hcl : ∀ p ∈ items, cliWord p.1)
+    (hd2 : ∀ p ∈ items, ∀ w' ∈ reword p.1, wordDom cfg w')
+    (hf : ∀ h, cliPushWords cfg HL.new (tokens [','] (Spec.render lead items)) = .ok (some h) →
+      ∀ r ∈ h.ranges.toList, r.ShiftFits) :
+    ∃ h', cliTargets cfg (Spec.render lead items) = .ok (some h') ∧ h'.Good ∧
+      h'.hosts = Spec.expand₂ (items.map (·.1)) :=
+  cliTargets_render cfg lead items hl hok hw hd hcl hd2 hf
+
 /-- STRING LEVEL, REPAIRED VARIANT: with D18 and D23 repaired the only restriction left is that no
     range reaches 2^64-1 (such a range is refused there, see C15.range_limit) -/
 theorem create_render_repaired (cfg : Cfg) (h18 : cfg.fixCurTok = true) (h23 : cfg.fixHostBuf = true)
@@ -237,4 +292,21 @@ example : (expand₁ exampleExpr).map String.ofList =
 example : (expand₂ exampleExpr).map String.ofList =
     ["foo9-0", "foo9-1", "foo10-0", "foo10-1", "foo11-0", "foo11-1", "foo007-0", "foo007-1", "12", "a3"] := by
   decide
+instance (w : Word) : Decidable (cliWord w) := by unfold cliWord; exact inferInstance
+/-- non-vacuity of `cli_targets`: every hypothesis holds of the example (for the code as found,
+    `Cfg.unchanged`), and the instance is derived THROUGH the theorem -/
+example : ∃ h', cliTargets Cfg.unchanged (render [] exampleItems) = .ok (some h') ∧
+    h'.hosts = expand₂ exampleExpr := by
+  obtain ⟨h', a, _, c⟩ := PdshVerif.C01.cli_targets Cfg.unchanged [] exampleItems (by decide) (by decide)
+    (by decide) (by decide) (by decide) (by decide)
+    (by
+      intro h hh
+      have key : (match cliPushWords Cfg.unchanged HL.new (tokens [','] (render [] exampleItems)) with
+          | .ok (some h) => h.ranges.toList.all (fun r => decide r.ShiftFits)
+          | _ => false) = true := by decide
+      rw [hh] at key
+      simp only [List.all_eq_true, decide_eq_true_eq] at key
+      exact key)
+  exact ⟨h', a, c⟩
+example : tokens [','] "a b, c[1,2] d".toList = ["a b".toList, " c[1,2] d".toList] := by decide
 end Examples
